@@ -538,6 +538,15 @@ class MiniPCNSample(Contract):
         n = z3.Int("n_samples")
         I.path.assume(n >= 1)
         kw = {"rng": rng} if shape["rng"] else {}
+        if I.path.choose(2, "sampler-object-used-before") == 1:
+            # an earlier sample() call on this object left its kernel behind (built with that call's generator)
+            stale = Obj({"MiniPCN": "MiniPCNKernel", "Emcee": "EmceeKernel"}.get(self.cls, "MiniPCNKernel"),
+                        {"rng": Sym(z3.Const("generator_of_an_earlier_call", Misc), "rng"),
+                         "log_prob_fn": Fn(lambda I2, a, k, n2: base_arr(fresh("target_of_an_earlier_call"), "real", a[0].n), "log_prob of an earlier call"), "args": Tup([]), "acceptance_fraction": base_arr("old_acc", "real"),
+                         "stale": B(True)})
+            s.f["sampler"] = stale
+        else:
+            s.absent.add("sampler")
         return Pre(s, [IV(n)], kw, ghost={"s": s, "rng": rng, "shape": shape, "n": n})
 
     def post(self, I, pre, r):
@@ -551,7 +560,10 @@ class MiniPCNSample(Contract):
         for nm, gl in aligned_goals(q, r, fields=("log_prior", "log_likelihood")):
             p.prove(gl, nm)
         cons = [e for e in p.events if e[0] == "kernel.construct"]
-        p.prove(z3.BoolVal(len(cons) == 1), f"{q}:C05:exactly one kernel constructed")
+        p.prove(z3.BoolVal(len(cons) == 1), f"{q}:C05:C20:exactly one kernel constructed by this call")
+        runs = [e for e in p.events if e[0] == "kernel.run"]
+        p.prove(z3.BoolVal(len(runs) == 1 and isinstance(runs[0][1], Obj) and "stale" not in runs[0][1].f),
+                f"{q}:C05:C20:the kernel that runs is the one this call built (with this call's target and generator), not one left on the object by an earlier call")
         if cons:
             kw = cons[0][2]
             fn = kw.get("log_prob_fn")
